@@ -12,7 +12,11 @@ assert not [l for l in sh('git', '-C', '/repo', 'status', '--short').split('\n')
 for e in plan:
     msg = open(e['msg']).read()
     assert msg.startswith('fix:'), e['msg']
-    sh('git', '-C', '/repo', 'apply', e['patch'])
+    try:
+        sh('git', '-C', '/repo', 'apply', e['patch'])
+    except subprocess.CalledProcessError:
+        # written against the pinned tree; an earlier repair touched the same function
+        sh('git', '-C', '/repo', 'apply', '--3way', e['patch'])
     sh('git', '-C', '/repo', 'commit', '-q', '-a', '-F', e['msg'])
     cid = sh('git', '-C', '/repo', 'rev-parse', '--short', 'HEAD')
     print(cid, msg.split('\n')[0])
